@@ -20,9 +20,9 @@ func flattenCase(g *Gen, o flatOpts, plus bool, repeats, permutes int, faults bo
 	keep := !o.Expand && g.p(0.2)
 	bo := BundleOpts{Plus: plus, AnonOK: anon, SharedOK: anon && !o.RemoveUnused, MaxAux: 3}
 	scenarios := []string{"collide-pointer", "collide-many", "collide-nested", "unused-chain", "expand-via-response", "collide-simple-shared", "prefix-names", "ref-siblings", "generated-name-clash", "case-twins", "digit-siblings", "odd-status", "pointer-chain-sections"}
-	if !keep && !plus && index%2 == 0 {
-		// every second bundle carries a planted interplay shape, taken in turn
-		bo.Scenario = scenarios[(index/2)%len(scenarios)]
+	if !keep && !plus && index%3 != 0 {
+		// two bundles in three carry a planted interplay shape, taken in turn
+		bo.Scenario = scenarios[(index-index/3-1)%len(scenarios)]
 		if !anon && bo.Scenario == "collide-pointer" {
 			bo.Scenario = "collide-many"
 		}
